@@ -377,6 +377,48 @@ impl<'a> Case<'a> {
 		}
 	}
 
+	/// T2: send the raw state of the value tables `tiers` to the Lean driver (`t2 slots`, format in
+	/// lean/Pdb/Model/DumpCheck.lean): the Lean definition `Pdb.ValueTable.SlotInv` is evaluated
+	/// on the table as it is in the file (handle drained).
+	fn t2_slots(&self, t: &mut Trace, ctr: &mut Counters, st: &BTreeMap<u8, TState>, tiers: &[u8]) {
+		for tier in tiers {
+			let (es, filled, lr, _) = match st.get(tier) {
+				Some(x) => *x,
+				None => continue,
+			};
+			if filled <= 1 {
+				continue
+			}
+			let mp = (*tier as usize) >= self.cx.sizes.len();
+			let mut s = format!("t2 slots {} {} {} {} {} {}", tier, es, mp as u8, self.cx.rc as u8, filled, lr);
+			let mut complete = true;
+			for i in 0..filled {
+				match self.sut.db().verif_table_entry(self.cx.col, *tier, i) {
+					Ok(raw) => {
+						let n = if i == 0 { 16 } else { std::cmp::min(40, es as usize) };
+						s.push(' ');
+						s.push_str(&hex(&raw[..std::cmp::min(n, raw.len())]));
+					},
+					Err(_) => complete = false,
+				}
+				if s.len() > 200 * 1024 {
+					complete = false;
+				}
+				if !complete {
+					break
+				}
+			}
+			if complete {
+				ctr.inc("t2.slots.lines");
+				ctr.add("t2.slots.slots", filled - 1);
+				ctr.add("t2.bytes", s.len() as u64);
+				t.op(&s, "ok");
+			} else {
+				ctr.inc("t2.skipped.slots_too_big");
+			}
+		}
+	}
+
 	/// no-leak oracle for hash columns: occupied slots = slots needed by the live values
 	fn check_occupancy(&mut self, t: &mut Trace, st: &BTreeMap<u8, TState>) {
 		let mut need: BTreeMap<u8, u64> = BTreeMap::new();
@@ -782,6 +824,7 @@ fn run_case(seed: u64, thorough: bool, root: &Path, t: &mut Trace, ctr: &mut Cou
 				},
 			}
 			c.check_occupancy(t, &after);
+			c.t2_slots(t, ctr, &after, &changed);
 		}
 		if !c.ok {
 			break
@@ -797,6 +840,10 @@ fn run_case(seed: u64, thorough: bool, root: &Path, t: &mut Trace, ctr: &mut Cou
 				c.check_key(t, ctr, &k, "reopened");
 			}
 			c.check_iter(t, ctr, "reopened");
+			if let Ok(st) = c.cx.states(&c.sut) {
+				let all: Vec<u8> = st.keys().copied().collect();
+				c.t2_slots(t, ctr, &st, &all);
+			}
 		}
 	}
 	// --- final reads and storage release cycles
